@@ -83,9 +83,35 @@ def run(ck):
                 if verd[0][2][0] != 'stdout': w3.append('verdict not on stdout')
                 view, ln = c[2][1], c[2][2]
                 sl = [e for e in ev if e[0] == 'call' and e[1] == 'strlen']
-                if not sl or sl[0][2] != (view,): w3.append(f'length is not strlen of the validated view ({view})')
-                elif ln not in (sl[0][3], f'({sl[0][3]} - 1)'): w3.append(f'length argument {ln} is not strlen(view) or strlen(view) - 1')
-                elif ln == f'({sl[0][3]} - 1)' and not any(e[0] == 'set' and e[1] == f'{view}[({sl[0][3]} - 1)]' and e[2] == "'\\x00'" for e in ev): w4.append('length shortened without storing the NUL at the new end')
+                from rules.shared import ptr_off
+                B, k = ptr_off(view)
+                S = None
+                for e in sl:
+                    b0, k0 = ptr_off(e[2][0])
+                    if b0 == B: S = (e[3], k0)
+                lead = [e for e in ev if e[0] == 'cond' and re.fullmatch(r"\(.+\[0\] == ' '\)", e[1])]
+                if lead and k != (1 if lead[0][2] else 0): w3.append(f'the validated pointer {view} is not the trimmed view (leading space {"present" if lead[0][2] else "absent"})')
+                su = [e for e in ev if e[0] == 'call' and e[1] == 'sanitize_utf8']
+                if su and su[0][2][0] != view: w3.append(f'the echoed string {su[0][2][0]} is not the validated view {view}')
+                if S is None: w3.append(f'length is not derived from strlen of the line buffer the view {view} points into')
+                else:
+                    sym, k0 = S
+                    m = int_off(ln, sym)
+                    trims = [e for e in ev if e[0] == 'cond' and re.search(r"== (' '|'\\x09')\)$", e[1]) and e[2] and sym in e[1]]
+                    want = (k - k0) + (1 if trims else 0)
+                    if m is None or m != want: w3.append(f'length argument {ln} is not strlen of the view {view} ({"after" if trims else "without"} trimming): off by {None if m is None else m - want}')
+                    # the trailing-blank test and the NUL store must address the last byte of the view
+                    for e in ev:
+                        tgt = None
+                        if e[0] == 'cond' and re.search(r"== (' '|'\\x09')\)$", e[1]) and sym in e[1]:
+                            mm = re.match(r"\((.+)\[(.+)\] == ", e[1]); tgt = (mm.group(1), mm.group(2)) if mm else None
+                        if e[0] == 'set' and e[2] == "'\\x00'" and sym in e[1]:
+                            mm = re.fullmatch(r"(.+)\[(.+)\]", e[1]); tgt = (mm.group(1), mm.group(2)) if mm else None
+                        if tgt:
+                            tb, t = ptr_off(tgt[0]); q = int_off(tgt[1], sym)
+                            if tb != B or q is None or (t - q - k0) != -1:
+                                (w4 if e[0] == 'set' else w3).append(f'{"NUL store" if e[0] == "set" else "trailing-blank test"} {tgt[0]}[{tgt[1]}] does not address the last byte of the view {view}')
+                    if trims and not any(e[0] == 'set' and e[2] == "'\\x00'" and sym in e[1] for e in ev): w4.append('length shortened without storing the NUL at the new end')
                 if c[2][0] != 'eav': w3.append('validated with a different eav_t')
                 if not passed:
                     es = [e for e in ev if e[0] == 'call' and e[1] == 'eav_errstr']
@@ -167,6 +193,16 @@ def run(ck):
     ck.undecided('echo clause: that a well-formed line without control characters is echoed unchanged (sanitize_utf8\'s look-ahead copy loop over the static decoder is not extracted); stdio/getline behaviour')
     ck.assume('getline returns a NUL-terminated buffer of `read` bytes; files are processed from the last argument to the first (the statement quantifies over single files)')
     ck.notes.append('bin/main.h also defines sanitize(), which has an unbounded static buffer but is not reachable from main (used by tests only): out of scope.')
+
+
+def int_off(expr, sym):
+    """expr == sym - m  (m >= 0, nested subtractions of constants allowed)  ->  m, else None"""
+    m = 0; e = expr
+    while True:
+        if e == sym: return m
+        g = re.fullmatch(r'\((.+) - (\d+)\)', e)
+        if not g: return None
+        m += int(g.group(2)); e = g.group(1)
 
 
 def guard(p, k, pos, L, size):
